@@ -393,7 +393,12 @@ func c08AlterStr(s string) string {
 }
 
 var c08HeaderVariants = []string{"stale", "reid", "reid+sig-other"}
-var c08BodyVariants = []string{"body-only", "reformat", "reformat+sig-other"}
+
+// body-only: nothing else touched; reformat: tx count, carried tree, root and id recomputed (signature stale);
+// tree-leaves: the carried MerkleTree gets the new txids as its leaves, inner nodes / root / id / signature untouched;
+// tree-stale-root: the carried MerkleTree (and TxCount) rebuilt for the new body but its last node and the header
+// root keep the old root - both must be rejected: the header root is not the root of the body
+var c08BodyVariants = []string{"body-only", "reformat", "reformat+sig-other", "tree-leaves", "tree-stale-root"}
 
 // mutations enumerates the candidate mutation list of the block (apply reports the inapplicable ones).
 func (b *c08Built) mutations() []c08Mut {
@@ -894,6 +899,30 @@ func (b *c08Built) apply(mu c08Mut) (m *pb.InternalBlock, meta c08Meta, ok bool)
 				// only copies were added and the specified tree construction cannot tell the lists apart
 				meta.finding = c08FDupTail
 			}
+		case "tree-leaves":
+			if len(txs) != n || len(m.MerkleTree) < n {
+				return nil, meta, false
+			}
+			tree := make([][]byte, len(m.MerkleTree))
+			copy(tree, m.MerkleTree)
+			for i, id := range c08Ids(txs) {
+				tree[i] = id
+			}
+			m.MerkleTree = tree
+			if bytes.Equal(c08Root(c08Ids(txs)), b.root) {
+				return nil, meta, false // the body still hashes to the header root
+			}
+		case "tree-stale-root":
+			if len(txs) == 0 || len(b.root) == 0 || bytes.Equal(c08Root(c08Ids(txs)), b.root) {
+				return nil, meta, false
+			}
+			m.TxCount = int32(len(txs))
+			tree := ledgerpkg.MakeMerkleTree(txs)
+			if len(tree) == 0 {
+				return nil, meta, false
+			}
+			tree[len(tree)-1] = append([]byte{}, b.root...)
+			m.MerkleTree = tree
 		case "reformat", "reformat+sig-other":
 			m.TxCount = int32(len(txs))
 			m.MerkleTree = ledgerpkg.MakeMerkleTree(txs)
